@@ -44,7 +44,8 @@ Definition sobserve_u (a : sgraph) : list (list Z) :=
     flat_map (fun e => map (fun l => zbool (match lfind (okey (fst e) (snd e)) (se a) with Some l' => leqb (if has_store then l' else ldef) l | None => false end)) lalpha) (pairs n);
     map (fun i => zn (udeg a true i)) vs ++ map (fun i => zn (udeg a false i)) vs ++ map (fun i => zn (udeg a true i)) vs ++ map (fun i => zn (udeg a false i)) vs;
     flat_map (fun tw : bool => map (fun e => zn (if umem a (fst e) (snd e) then (if Nat.eqb (fst e) (snd e) && tw then 2 else 1) else 0)) (pairs n)) [true; false];
-    zn (length (se a)) :: map (fun e => zn (if Nat.leb (fst e) (snd e) && smem e a then 1 else 0)) (pairs n) ].
+    zn (length (se a)) :: map (fun e => zn (if Nat.leb (fst e) (snd e) && smem e a then 1 else 0)) (pairs n);
+    map Z.of_nat (seq 0 n) ++ [1; 1; zbool (Nat.eqb (length (se a)) 0)] ].
 Definition u_rejected_code (a : sgraph) (o : @uop L) : option Z :=
   let oor := Some (zexn OutOfRange) in let inv := Some (zexn InvalidArgument) in
   let bad (v : nat) := negb (Nat.ltb v (sn a)) in
